@@ -1,13 +1,57 @@
 import Hms
+import HmsGen.Enums
 import Driver.Decode
 /-! Driver commands of the "Core" area. `dispatchCore cmd payload` answers `some line` for the
 commands it owns and `none` otherwise. -/
 namespace Driver
 open Hms
 
+/-- `compile <modules sexp>` → the model compiler's instruction stream, as `x<hex>` of the text
+`FN <name>\n<instr>\n…` with functions sorted by name (same format as the harness's ASM field). -/
+def cmdCompile (payload : String) : String :=
+  match Sexp.parse payload with
+  | none => "BAD-INPUT"
+  | some sx =>
+    match Decode.program sx with
+    | .error e => s!"DECODE-ERROR {Sexp.hexOfString e}"
+    | .ok prog =>
+      match Core.Comp.compile prog with
+      | .error w => s!"UNSUPPORTED {Sexp.hexOfString w}"
+      | .ok c =>
+        let fns := (c.fns.toArray.qsort fun a b => a.name < b.name).toList
+        let text := String.join (fns.map fun f =>
+          s!"FN {f.name}\n" ++ String.join (f.code.map fun (i, _) => i.render ++ "\n"))
+        Sexp.hexOfString text
+
+def spanS' (sp : Core.Span) : String := s!"{sp.sl}.{sp.sc}-{sp.el}.{sp.ec}"
+def firstLine' (s : String) : String := (s.splitOn "\n").headD ""
+
+def vmOutcomeS : Core.VM.Outcome → String
+  | .ok s => s!"OK out={Sexp.hexOfString s.st.out} trig={Sexp.hexOfString s.st.trig} stack={s.stack.length} mp={s.mp} handlers={s.handlers.length} steps={s.steps} polls={s.polls}"
+  | .fatal k msg sp s => s!"FATAL kind={k} msg={Sexp.hexOfString (firstLine' msg)} span={spanS' sp} out={Sexp.hexOfString s.st.out} trig={Sexp.hexOfString s.st.trig}"
+  | .term s => s!"TERM out={Sexp.hexOfString s.st.out}"
+  | .panic why s => s!"PANIC {Sexp.hexOfString why} out={Sexp.hexOfString s.st.out}"
+  | .outOfFuel _ => "TIMEOUT"
+
+/-- `vmrun <calls> <stack> <mem> <modules sexp>` → outcome of the compiler model + VM model. -/
+def cmdVmRun (payload : String) : String :=
+  match payload.splitOn " " with
+  | a :: b :: c :: rest =>
+    match a.toNat?, b.toNat?, c.toNat?, Sexp.parse (" ".intercalate rest) with
+    | some calls, some stack, some mem, some sx =>
+      match Decode.program sx with
+      | .error e => s!"DECODE-ERROR {Sexp.hexOfString e}"
+      | .ok prog =>
+        match Core.Comp.compile prog with
+        | .error w => s!"UNSUPPORTED {Sexp.hexOfString w}"
+        | .ok cp => vmOutcomeS (Core.VM.runMain cp { callStack := calls, stack := stack, memory := mem } HmsGen.vmQuantum)
+    | _, _, _, _ => "BAD-INPUT"
+  | _ => "BAD-INPUT"
+
 def dispatchCore (cmd : String) (payload : String) : Option String :=
-  let _ := payload
   match cmd with
+  | "compile" => some (cmdCompile payload)
+  | "vmrun" => some (cmdVmRun payload)
   | _ => none
 
 end Driver
